@@ -441,7 +441,10 @@ def _projection_cases(ctx, hs):
                                  SG.tx_diag(ev, before, ev["after"], ops, M.to_coq))
         verdict = {"0": "ok", "1": "the replayed sequence does not land on the real columns",
                    "2": "a primitive is applied where its side condition (run_ok_b) fails",
-                   "3": "the transaction model rejects the operation or a primitive is undefined"}.get(
+                   "3": "the transaction model rejects the operation or a primitive is undefined",
+                   "4": "the state before does not satisfy J or is not coupled to the snapshot",
+                   "5": "the state after the transaction does not satisfy J (inv_core_b && ntc_b)",
+                   "6": "the result of the replay is not coupled to the state after the transaction"}.get(
                        (vals[0] or "").strip(), str(vals[0]))
         ctx.add_failure(
             "correspondence", "projection:" + kind, sig,
